@@ -42,6 +42,10 @@ def run(prog, run):
                             '_q_connected and QXmppRosterManagerPrivate::clear', floor=4)
     allowed = {RM + '::handleStanza': 'push arm', RM + '::_q_connected': 'roster result continuation',
                'QXmppRosterManagerPrivate::clear': 'clear'}
+    conn = prog.fn(RM + '::_q_connected')
+    cont_scope = _continuation_scope(prog, conn)
+    for g in cont_scope:
+        allowed.setdefault(top_function(prog, g).qname, 'roster result continuation (helper called only from it)')
     writes = [(f, i, k, h) for f, i, k, h in field_uses(prog, ENTRIES) if k in ('write', 'addr')]
     if not writes:
         raise AnalysisBroken('C12.R1: no write to %s found (anchor gone)' % ENTRIES)
@@ -104,24 +108,32 @@ def run(prog, run):
                           'a push from %s no longer reaches %s' % (label, [w for i, w in sinks if res[i] is None]))
 
     # ---- R3 push application
-    r3 = run.rule('C12.R3', 'inside the Set case each item of one loop over items() is applied: Remove => entries.remove, otherwise insert', floor=2)
-    for f, i, k, h in writes:
-        if f.id != hs.id:
-            continue
+    r3 = run.rule('C12.R3', 'for type()==Set only, each item of one loop over items() is applied: Remove => entries.remove, every other subscription type => insert (decided per enumerator)', floor=2)
+    hs_writes = [(i, h) for f, i, k, h in writes if f.id == hs.id]
+
+    def reach_under(callee, enum_scope, name):
+        ev = cfgx.Evaluator(hs, {callee: ('enum', enum_scope + name)})
+        return cfgx.sink_reachability(hs, lambda f, c, st: ev.ev(c, st), [i for i, _ in hs_writes])
+    iq_types = [e['name'] for e in prog.enum('QXmppIq::Type')['enumerators']]
+    sub_types = [e['name'] for e in prog.enum('QXmppRosterIq::Item::SubscriptionType')['enumerators']]
+    if 'Set' not in iq_types or 'Remove' not in sub_types:
+        raise AnalysisBroken('C12.R3: QXmppIq::Set / Item::Remove enumerators not found')
+    by_type = {t: reach_under('QXmppIq::type', 'QXmppIq::', t) for t in iq_types}
+    by_sub = {t: reach_under('QXmppRosterIq::Item::subscriptionType', 'QXmppRosterIq::Item::', t) for t in sub_types}
+    for i, h in hs_writes:
         run.instance(r3)
-        atoms = hs.atomic_assertions_at(i)
-        in_set = any(isinstance(pol, tuple) and isinstance(pol[1], dict) and pol[1].get('name') == 'QXmppIq::Set'
-                     and 'QXmppIq::type' in hs.fmt(c) for c, pol in atoms)
-        rem = None
-        for c, pol in atoms:
-            if isinstance(pol, bool):
-                bo = hs.binop(c)
-                if bo and bo[0] in ('==', '!=') and 'subscriptionType' in hs.fmt(c) and 'QXmppRosterIq::Item::Remove' in hs.fmt(c):
-                    rem = (pol == (bo[0] == '=='))
+        # decided by abstract evaluation per enumerator, whatever the spelling (switch, if-chain, guard clauses)
+        in_set = by_type['Set'][i] is not None and all(by_type[t][i] is None for t in iq_types if t != 'Set')
+        if by_sub['Remove'][i] is not None and all(by_sub[t][i] is None for t in sub_types if t != 'Remove'):
+            rem = True
+        elif by_sub['Remove'][i] is None and all(by_sub[t][i] is not None for t in sub_types if t != 'Remove'):
+            rem = False
+        else:
+            rem = None
         loop = _enclosing_rangefor(hs, i)
         problems = []
         if not in_set:
-            problems.append('not under case QXmppIq::Set of rosterIq.type()')
+            problems.append('not exactly under rosterIq.type() == QXmppIq::Set')
         if loop is None or 'QXmppRosterIq::items' not in loop:
             problems.append('not inside the loop over rosterIq.items()')
         if h.startswith('remove') and rem is not True:
@@ -226,7 +238,7 @@ def run(prog, run):
         run.violation(r4, 'session-slots#not-connected', 'src/client/QXmppRosterManager.cpp', 'session boundary slots wiring changed: %s' % wired)
     # roster result continuation: clear, then insert every item, then flag
     run.instance(r4)
-    cont = [l for l in prog.lambdas_in(conn) if any(k in ('write',) for f, i, k, h in writes if f.id == l.id)]
+    cont = [l for l in cont_scope if any(k in ('write',) for f, i, k, h in writes if f.id == l.id)]
     if not cont:
         raise AnalysisBroken('C12.R4: roster-result continuation not found in _q_connected')
     cont = cont[0]
@@ -266,6 +278,27 @@ def run(prog, run):
         else:
             run.violation(r5, '_q_presenceReceived#%s#%s' % (case, h.split(' ')[-1]), f.loc(i),
                           'presence table written with %s under case %s' % (h, case))
+
+
+def _continuation_scope(prog, conn):
+    """the continuation lambdas of _q_connected plus the functions that are called only from them (an extracted continuation body)"""
+    scope = list(prog.lambdas_in(conn))
+    ids = {f.id for f in scope}
+    changed = True
+    while changed:
+        changed = False
+        for f in list(scope):
+            for i, n in f.calls():
+                if n.get('op'):
+                    continue
+                for g in prog.callee_fns(f, n):
+                    if g.id in ids or g.entry is None or not g.file.endswith('QXmppRosterManager.cpp'):
+                        continue
+                    if all(c.id in ids for c, _ in prog.callers().get(g.id, [])):
+                        scope.append(g)
+                        ids.add(g.id)
+                        changed = True
+    return scope
 
 
 def _on_all_paths(fn, nid):
